@@ -164,9 +164,25 @@ func runC10(c *Ctx) {
 			}
 			nDel++
 			c.R.Funcs[c.nm(fn)] = true
+			// without an outpoint there is no state to remove: the edge on
+			// which the outpoint handed in is found to be nil (every caller
+			// passes the address of a local) is not a way to a delivery that
+			// owes a delete
+			cut := ir.Cut{}
+			for _, p := range fn.Params {
+				// (likewise a block that is not there: the requests failed on
+				// that edge were never registered)
+				if pt, isP := p.Type().(*types.Pointer); isP && (namedTypeIs(pt.Elem(), pWire, "OutPoint") || namedTypeIs(pt.Elem(), pWire, "MsgBlock")) {
+					for _, nb := range ir.NilBranches(p) {
+						cut[nb.Edge()] = true
+					}
+				}
+			}
+			c.precedeCut = cut
 			for _, f := range []string{"requests", "initialTxns", "outpoints"} {
 				c.mustPrecede(fn, mapDelete(loadsField(bsr(f))), "delete(b."+f+", *outpoint)", callTo(deliver()), "request.deliver", 1)
 			}
+			c.precedeCut = nil
 		}
 		c.verdict(nDel >= 1, "neutrino.batchSpendReporter | methods that answer requests", "", fmt.Sprintf("%d method(s) call deliver", nDel), "no method of batchSpendReporter delivers results any more")
 		d := c.fn("(*neutrino.GetUtxoRequest).deliver")
